@@ -446,6 +446,8 @@ class PVLParser(object):
 
         try:
             self.parse_around_equals(tokens)
+        except LexerError:
+            raise
         except ValueError:
             tokens.throw(
                 ValueError, f'Expecting an equals sign after "{begin}" '
@@ -590,6 +592,8 @@ class PVLParser(object):
 
         try:
             self.parse_around_equals(tokens)
+        except LexerError:
+            raise
         except ValueError:
             # The Parameter Name has already been consumed, so this
             # cannot be some other kind of statement: it is an error.
